@@ -193,18 +193,21 @@ inductive FOut where
   | panic (site : String)
   deriving DecidableEq, Repr
 
+def fuConv : Down (Roto.RibFwd Payload) → In
+  | .os ms => .os ms
+  | .fwd (.single q) => .upd (.single q)
+  | .fwd (.bulk qs) => .upd (.bulk qs)
+
 /-- `asWritten = true`: the code that exists. `false`: a filter unit that does what the RIB unit's
     `filter_payload` does minus the insert, and passes everything else on. -/
 def filterUnit (asWritten : Bool) (keepPd : Bool) (f : Option (Payload → Verdict × List Output)) : In → FOut
   | .upd .endOfStream => .fwd [.upd .endOfStream]
   | .upd (.single p) =>
     if asWritten then .panic "filter/unit.rs:239 todo!()"
-    else .fwd ((Roto.ribFilter keepPd f (fun (s : Unit) _ => s) () [p]).2.map fun d => match d with
-      | .os ms => .os ms | .fwd (.single q) => .upd (.single q) | .fwd (.bulk qs) => .upd (.bulk qs))
+    else .fwd ((Roto.ribFilter keepPd f (fun (s : Unit) _ => s) () [p]).2.map fuConv)
   | .upd (.bulk ps) =>
     if asWritten then .panic "filter/unit.rs:239 todo!()"
-    else .fwd ((Roto.ribFilter keepPd f (fun (s : Unit) _ => s) () ps).2.map fun d => match d with
-      | .os ms => .os ms | .fwd (.single q) => .upd (.single q) | .fwd (.bulk qs) => .upd (.bulk qs))
+    else .fwd ((Roto.ribFilter keepPd f (fun (s : Unit) _ => s) () ps).2.map fuConv)
   | i => if asWritten then .fwd [] else .fwd [i]
 
 inductive Outcome where
